@@ -384,6 +384,100 @@ func c06(e *env) {
 		w.Add(rig.Case{Desc: map[string]interface{}{"kind": "seq", "calls": calls}, Coq: gal.App("K6Seq", gal.N(cNow), gal.List(kg), gal.List(steps)), Nontrivial: true})
 	}
 
+	// (B2) one batch whose replies and requests are larger than the socket buffers: a multi-key get
+	// of 4 x 256 KiB values and, in the same batch, a 1 MiB set (both arrival orders). Each caller
+	// gets its own correct outcome (the pool must read replies while it is still writing requests).
+	for _, getFirst := range []bool{true, false} {
+		fb := fakemc.New()
+		fb.SetNow(cNow)
+		fb.LogOn = false
+		sock := newSock(e)
+		l, _ := fb.ListenUnix(sock)
+		bigKeys := []string{"big0", "big1", "big2", "big3"}
+		for i, k := range bigKeys {
+			fb.Put(k, fakemc.Entry{Flags: uint32(i), Value: bytes.Repeat([]byte{byte('A' + i)}, 256<<10), Deadline: -1})
+		}
+		opts := batched.Opts{BatchSize: 8, BatchDelayMicros: 30000}
+		batched.NewHandler(sock, opts)
+		type outc struct {
+			who string
+			res string
+		}
+		done := make(chan outc, 2)
+		doGet := func() {
+			h := batched.NewHandler(sock, opts)
+			req := common.GetRequest{}
+			for i, k := range bigKeys {
+				req.Keys = append(req.Keys, []byte(k))
+				req.Opaques = append(req.Opaques, uint32(10+i))
+				req.Quiet = append(req.Quiet, false)
+			}
+			dc, ec := h.Get(req)
+			okAll, n := true, 0
+			var gerr error
+			for dc != nil || ec != nil {
+				select {
+				case g, ok := <-dc:
+					if !ok {
+						dc = nil
+						continue
+					}
+					i := int(g.Opaque) - 10
+					if g.Miss || i < 0 || i > 3 || len(g.Data) != 256<<10 || g.Data[0] != byte('A'+i) || g.Data[len(g.Data)-1] != byte('A'+i) || g.Flags != uint32(i) {
+						okAll = false
+					}
+					n++
+				case er, ok := <-ec:
+					if !ok {
+						ec = nil
+						continue
+					}
+					gerr = er
+				}
+			}
+			done <- outc{"get", fmt.Sprintf("values=%d correct=%v err=%v", n, okAll, gerr)}
+		}
+		doSet := func() {
+			h := batched.NewHandler(sock, opts)
+			err := h.Set(common.SetRequest{Key: []byte("huge"), Data: bytes.Repeat([]byte{'z'}, 1<<20), Flags: 9})
+			done <- outc{"set", fmt.Sprintf("err=%v", err)}
+		}
+		if getFirst {
+			go doGet()
+			time.Sleep(3 * time.Millisecond)
+			go doSet()
+		} else {
+			go doSet()
+			time.Sleep(3 * time.Millisecond)
+			go doGet()
+		}
+		got := map[string]string{}
+		timeout := time.After(30 * time.Second)
+	waitBig:
+		for len(got) < 2 {
+			select {
+			case o := <-done:
+				got[o.who] = o.res
+			case <-timeout:
+				break waitBig
+			}
+		}
+		in := map[string]interface{}{"kind": "big-batch", "get_first": getFirst}
+		if len(got) < 2 {
+			w.Fail(rig.GoFailure{Kind: "counterexample", What: "callers of one batch with values larger than the socket buffers got no outcome within 30 s", Input: in, Detail: fmt.Sprint(got)})
+		} else {
+			if got["get"] != "values=4 correct=true err=<nil>" || got["set"] != "err=<nil>" {
+				w.Fail(rig.GoFailure{Kind: "counterexample", What: "callers of one batch with large values did not get their own correct outcome", Input: in, Detail: fmt.Sprint(got)})
+			}
+			if d := fb.Dump(); len(d["huge"].Value) != 1<<20 {
+				w.Fail(rig.GoFailure{Kind: "counterexample", What: "the 1 MiB set of a large batch was acknowledged but is not stored", Input: in})
+			}
+		}
+		w.Count("big-batch")
+		l.Close()
+		fb.CloseAll()
+	}
+
 	// (C) many callers at once on private keys through one pool
 	nconc := 6
 	if thorough {
